@@ -111,6 +111,17 @@ impl Server {
                 .stdin(Stdio::null())
                 .spawn()
                 .ok()?;
+            // The server must not outlive the process that started it (a worker is killed, not asked to stop): a
+            // small watcher ends it once that process is gone.
+            let _ = Command::new("/bin/sh")
+                .arg("-c")
+                .arg("while kill -0 \"$0\" 2>/dev/null && kill -0 \"$1\" 2>/dev/null; do sleep 1; done; grep -q svgdx-server \"/proc/$1/cmdline\" 2>/dev/null && kill -9 \"$1\"")
+                .arg(std::process::id().to_string())
+                .arg(child.id().to_string())
+                .stdout(Stdio::null())
+                .stderr(Stdio::null())
+                .stdin(Stdio::null())
+                .spawn();
             let mut s = Server { child, port };
             let t0 = Instant::now();
             while t0.elapsed() < Duration::from_secs(10) {
